@@ -83,7 +83,9 @@ def build_case(ch):
                                  ('[out]', ('o', 'u', 't'))))
     outdir = (outname + '/sub') if nested else outname
     form = ch.below(8)        # 6, 7: the output path names the output DIRECTORY with trailing separators ("../out/", "../out//")
-    base = ch.pick(['m.c', 'm.c', 'out.c', 'noext', 'a.b.c', 'x.cc', 'module.c'])
+    base = ch.pick(['m.c', 'm.c', 'out.c', 'noext', 'a.b.c', 'x.cc', 'module.c', 'L' * 240 + '.c', 'n' * 251, 'k' * 249 + '.c', 'q' * 200 + '.c'])
+    # redundant separators behind the FILE name ("out/m.c//"): POSIX basename ignores them
+    trail = ch.pick((0, 0, 0, 1, 2, 7, 20))
     decoys = {}
     for d in ('cwd', 'in', 'out', 'out/sub', 'other', '.') + tuple('sib:' + x for x in siblings):
         names = []
@@ -134,7 +136,7 @@ def build_case(ch):
                                                         [('local.get', 0), ('local.set', 9), ('i32.const', 1)], [('i32.add',)],
                                                         [('local.get', 0), ('i32.const', 1), ('call_indirect', 0)])))
         mbytes = wasm.encode(m)
-    return {'module': mbytes, 'bad': bad, 'outname': outname, 'siblings': list(siblings), 'ref': wasm.encode(ref) if ref is not None else None, 'outdir': outdir, 'form': form,
+    return {'module': mbytes, 'bad': bad, 'outname': outname, 'siblings': list(siblings), 'trail': trail, 'ref': wasm.encode(ref) if ref is not None else None, 'outdir': outdir, 'form': form,
             'base': base, 'decoys': decoys, 'opts': opts, 'inabs': ch.below(2) == 1, 'variant': variant}
 
 
@@ -154,7 +156,7 @@ def materialise(case, root):
     for d, names in case['decoys'].items():
         for n, kind in names:
             p = os.path.join(root, real(d), n)
-            if os.path.lexists(p):
+            if len(n) > 255 or os.path.lexists(p):
                 continue
             if kind == 'file':
                 open(p, 'w').write('decoy %s/%s\n' % (d, n))
@@ -182,6 +184,8 @@ def materialise(case, root):
         outpath = os.path.join(root, outdir) + '//'
     else:
         outpath = os.path.join(root, 'cwd', rel_from_cwd, case['base'])
+    if form not in (6, 7) and case.get('trail'):
+        outpath += '/' * case['trail']
     inpath = os.path.join(root, 'in', 'm.wasm') if case['inabs'] else os.path.join('..', 'in', 'm.wasm')
     if case.get('bad') == 'missing-input':
         inpath = inpath.replace('m.wasm', 'absent.wasm')
@@ -309,6 +313,10 @@ def task(wid, seed, params):
             classes.append('reference_module')
         if case.get('bad'):
             classes.append('failing_run_' + case['bad'])
+        if len(case['base']) > 100:
+            classes.append('long_output_file_name')
+        if case.get('trail') and case['form'] not in (6, 7):
+            classes.append('separators_behind_the_file_name')
         for c in classes:
             res['classes'][c] += 1
         if classes[:3] and any(c in classes for c in ('clean_with_near_misses', 'relative_output_decoys_in_cwd', 'gnu-ld')):
